@@ -211,6 +211,52 @@ def check_natural(case):
     return res
 
 
+BENIGN = {
+    # results that underflow to a denormal or to zero: finite values, no fault
+    'denormal-product': (['bin', '*', ['var', 'X', 'v', None], ['var', 'W', 'v', None]], {'X': 1e-300, 'W': 1e-10}),
+    'zero-product': (['bin', '*', ['var', 'X', 'v', None], ['var', 'X', 'v', None]], {'X': 1e-200, 'W': 1.0}),
+    'exp-underflow': (['call', 'exp', [['var', 'X', 'v', None]]], {'X': -1000.0, 'W': 1.0}),
+    'tiny-quotient': (['bin', '/', ['var', 'X', 'v', None], ['var', 'W', 'v', None]], {'X': 1e-300, 'W': 1e300}),
+    'huge-but-finite': (['bin', '*', ['var', 'X', 'v', None], ['var', 'W', 'v', None]], {'X': 1e154, 'W': 1e154}),
+}
+
+
+def check_benign(case):
+    """Extreme but finite arithmetic (underflow to a denormal / to zero, results near the largest float) is not a fault under
+    any policy: the period converges like any other."""
+    rhs, values = BENIGN[case['kind']]
+    prog = [['assign', ['var', 'Y', 'v', None], rhs], ['assign', ['var', 'Z', 'v', None], ['bin', '+', ['var', 'Y', 'v', None], ['num', '1']]]]
+    ref = G.Reference(prog)
+    text, _ = G.render_program(prog, [])
+    M = fsic.build_model(fsic.parse_model(text))
+    n = 2
+    init = {'Y': [1.0] * n, 'Z': [2.0] * n, 'X': [values['X']] * n, 'W': [values['W']] * n}
+    init = {k: v for k, v in init.items() if k in ref.names}
+    m = M(range(n), **{k: np.array(v) for k, v in init.items()})
+    opts = dict(case['opts'])
+    got = attempt(m.solve_t, 1, **opts)
+    st = SC.ref_state(init, n)
+    want = refsolver.solve_t(st, 1, n, check=ref.endogenous, endogenous=ref.endogenous,
+                             evaluate=SC.ref_program_evaluate(ref, list(range(n))), **opts)
+    res = Result(nontrivial=True, classes=['benign-extremes', 'benign:' + case['kind'], 'errors=' + str(opts.get('errors'))])
+    detail = f'{text!r} {values} {SC.opts_text(opts)}'
+    cls = 'benign/' + case['kind']
+    SC.compare_outcome(res, cls, got, want, detail)
+    SC.compare_states(res, cls, m, st, ref.names, detail)
+    return res
+
+
+def gen_benign():
+    def gen():
+        for kind in BENIGN:
+            for errors in ERRORS[:4]:
+                for cfe in (True, False):
+                    for max_iter in (1, 3):
+                        yield {'kind': kind, 'opts': {'min_iter': 0, 'max_iter': max_iter, 'tol': 0.5, 'failures': 'ignore',
+                                                      'errors': errors, 'catch_first_error': cfe}}
+    return gen
+
+
 def gen_natural(bound):
     def gen():
         for kind in NATURAL:
@@ -231,5 +277,6 @@ def phases(tier):
     quick = tier == 'quick'
     return [
         Phase('fault-placements', check_fault, gen=SC.with_history(with_rep(gen_faults(3 if quick else 6))), exhaustive=True),
+        Phase('benign-extremes', check_benign, gen=gen_benign(), exhaustive=True, shards=1),
         Phase('natural-faults', check_natural, gen=with_rep(gen_natural(2 if quick else 6)), exhaustive=True),
     ]
